@@ -3,6 +3,7 @@ package main
 import (
 	"fmt"
 	"go/token"
+	"go/types"
 	"sort"
 	"strings"
 
@@ -195,5 +196,53 @@ func ruleArithKind(c *Ctx) *RuleResult {
 			}
 		}
 	}
+	// the helpers the mixed arms delegate to compare exactly: none of them orders the
+	// operands after converting the integer to a float (float64(n) rounds beyond 2^53,
+	// so math.maxinteger < 2^63 came out false)
+	nh := 0
+	for _, hn := range []string{"ltIntAndFloat", "ltFloatAndInt", "leIntAndFloat", "leFloatAndInt"} {
+		h := p.Func("runtime", hn)
+		if h == nil {
+			r.broken("anchor unresolved: runtime.%s", hn)
+			continue
+		}
+		nh++
+		var intParam ssa.Value
+		for _, prm := range h.Params {
+			if b, ok := prm.Type().Underlying().(*types.Basic); ok && b.Kind() == types.Int64 {
+				intParam = prm
+			}
+		}
+		badAt := ""
+		forEachInstr(h, func(ins ssa.Instruction) {
+			bo, ok := ins.(*ssa.BinOp)
+			if !ok {
+				return
+			}
+			switch bo.Op {
+			case token.LSS, token.LEQ, token.GTR, token.GEQ:
+			default:
+				return
+			}
+			for _, side := range []ssa.Value{bo.X, bo.Y} {
+				cv, ok := side.(*ssa.Convert)
+				if !ok {
+					continue
+				}
+				if b, ok := cv.Type().Underlying().(*types.Basic); !ok || b.Info()&types.IsFloat == 0 {
+					continue
+				}
+				if intParam != nil && backSliceAllocs(cv.X, false)[intParam] {
+					badAt = p.InstrPos(ins)
+				}
+			}
+		})
+		if badAt == "" {
+			r.ok("runtime." + hn + " does not order its operands through float64(integer operand)")
+		} else {
+			r.fail("inexact-mixed-comparison:"+hn, badAt, "runtime."+hn+" compares after converting its integer operand to a float: beyond 2^53 the conversion rounds, so e.g. math.maxinteger < 2^63 (and <= against 2^63, and their mirrors) give the wrong answer; the integer must be compared with the floor or ceiling of the float, which are exact")
+		}
+	}
+	r.count("exact_comparison_helpers", nh)
 	return r
 }
